@@ -87,7 +87,7 @@ From Msm Require Import Spec Lemmas_Sim Lemmas_Core Lemmas_SpecRun.
    the property compares: the numeric result code (both satisfy the same handled / rejected outcome), and the ids the
    outermost machine's own entry behaviour reads from its fsm argument when a stopped machine is started again. *)
 Theorem C13_back_backmp11_same_behaviour : forall cfB cfM md l,
-  c_be cfB = Back -> c_fct cfB = false -> c_be cfM = Mp11 -> c_pol cfB = c_pol cfM ->
+  c_be cfB = Back -> c_be cfM = Mp11 -> c_pol cfB = c_pol cfM ->
   flat_events md -> core (md_root md) -> m_hist (md_root md) = HNone ->
   depth (md_root md) + 2 <= default_fuel ->
   back_start_queues = true -> mp11_entry_throw_resets = true ->
@@ -98,7 +98,7 @@ Print Assumptions C13_back_backmp11_same_behaviour.
 
 (* with one start() nothing but the numeric result code can differ *)
 Theorem C13_back_backmp11_same_behaviour_one_start : forall cfB cfM md l,
-  c_be cfB = Back -> c_fct cfB = false -> c_be cfM = Mp11 -> c_pol cfB = c_pol cfM ->
+  c_be cfB = Back -> c_be cfM = Mp11 -> c_pol cfB = c_pol cfM ->
   flat_events md -> core (md_root md) -> m_hist (md_root md) = HNone ->
   depth (md_root md) + 2 <= default_fuel ->
   back_start_queues = true -> mp11_entry_throw_resets = true ->
@@ -106,6 +106,27 @@ Theorem C13_back_backmp11_same_behaviour_one_start : forall cfB cfM md l,
   Forall2 same_step_strict (run cfB md l) (run cfM md l).
 Proof. exact back_mp11_same_behaviour_one_start. Qed.
 Print Assumptions C13_back_backmp11_same_behaviour_one_start.
+
+(* all configurations pairwise: back, back11, backmp11; favor_runtime_speed or favor_compile_time (of back and of
+   backmp11); either queue option; (the model does not distinguish backmp11's two dispatch strategies - that they
+   coincide is sampled by the correspondence runs) *)
+Theorem C13_all_configurations_same_behaviour : forall cf1 cf2 md l,
+  c_pol cf1 = c_pol cf2 -> flat_events md -> core (md_root md) -> cfg_fits cf1 md -> cfg_fits cf2 md ->
+  depth (md_root md) + 2 <= default_fuel -> back_start_queues = true -> mp11_entry_throw_resets = true ->
+  bracketed false l ->
+  Forall2 same_step (run cf1 md l) (run cf2 md l).
+Proof. exact configs_same_behaviour. Qed.
+Print Assumptions C13_all_configurations_same_behaviour.
+
+(* within one family (back / back11, or backmp11), or across families on a history with one start(): nothing but the
+   numeric result code can differ *)
+Theorem C13_all_configurations_same_behaviour_strict : forall cf1 cf2 md l,
+  c_pol cf1 = c_pol cf2 -> flat_events md -> core (md_root md) -> cfg_fits cf1 md -> cfg_fits cf2 md ->
+  depth (md_root md) + 2 <= default_fuel -> back_start_queues = true -> mp11_entry_throw_resets = true ->
+  bracketed false l -> (is_mp11 cf1 = is_mp11 cf2 \/ one_start l) ->
+  Forall2 same_step_strict (run cf1 md l) (run cf2 md l).
+Proof. exact configs_same_behaviour_strict. Qed.
+Print Assumptions C13_all_configurations_same_behaviour_strict.
 
 (* the probed engine facts hold on this tree, the hypotheses are met by a nested definition with two regions and
    history, and on it the two differences above do occur (result code 3 against 1; ids [0] against [1] at the restart) *)
